@@ -77,6 +77,11 @@ def main():
     except ToolError as e:
         print(f"TOOL-ERROR property={prop}: {e}", file=sys.stderr)
         return 2
+    except Exception as e:  # a failure of the machinery is never a verdict
+        import traceback
+        traceback.print_exc()
+        print(f"TOOL-ERROR property={prop}: {type(e).__name__}: {e}", file=sys.stderr)
+        return 2
     known = [k for k in load_known() if k.get("property") == prop and k.get("status") == "known"]
     viols = []
     exercised = set()
